@@ -154,6 +154,10 @@ func execC18(t *testing.T) func(Case) evid.Result {
 			r.Err = fmt.Errorf("advertisement with infinite cost: %s", res.advertErr)
 			return
 		}
+		if res.stormErr != "" {
+			r.Err = fmt.Errorf("no fixed point: %s", res.stormErr)
+			return
+		}
 		byTopo := map[string]map[string]string{}
 		var tables []map[string]string
 		for _, sp := range res.points {
@@ -271,6 +275,10 @@ func execC19(t *testing.T) func(Case) evid.Result {
 		if res.bubbleErr != "" {
 			r.Err = fmt.Errorf("routers do not shut down: %s", res.bubbleErr)
 			return
+		}
+		if res.stormErr != "" {
+			// the routing tables never settled (a C18 matter): there is no settling point to judge
+			r.Classes = append(r.Classes, "cut-short:advertisement-storm")
 		}
 		for _, sp := range res.points {
 			if err := judge19(c, sp); err != nil {
